@@ -11,6 +11,7 @@ open Pko.Model.Chunk Pko.Model.ChunkSpec
 inductive Op where
   | chunk (phases : List (List Obj))    -- call the chunker on each phase (no API involved)
   | deploy (phases : List (List Obj))   -- `DeploymentReconciler.Reconcile` with these desired phases
+  | deployF (f : DFault) (phases : List (List Obj))   -- the same, hit by the API fault `f`
   | snap                                -- environment: new ObjectSet revision from the current template
   | delos (i : Nat)                     -- environment: the i-th ObjectSet is gone from the API
   | life (i : Nat) (l : Life)           -- environment: `.spec.lifecycleState` of the i-th ObjectSet is set
@@ -34,6 +35,10 @@ def modelStep (limit : Nat) (strat : Strategy) (hash : List Obj → Nat → Name
     match reconcile limit strat hash w desired with
     | none => (w, .stuck)
     | some (w', ok, del) => (w', .deploy { ok, tmpl := w'.deploy, deleted := del, store := w'.slices })
+  | .deployF f desired =>
+    match reconcileF limit strat hash f w desired with
+    | none => (w, .stuck)
+    | some (w', ok, del) => (w', .deploy { ok, tmpl := w'.deploy, deleted := del, store := w'.slices })
   | .snap => (snap w, .env)
   | .delos i => (delos w i, .env)
   | .life i l => (setLife w i l, .env)
@@ -55,6 +60,8 @@ def specStep (isHashOf : Name → List Obj → Bool) (limit : Nat) (strat : Stra
     (s, phases.length == outs.length && (phases.zip outs).all fun po => chunkOk limit strat po.1 po.2)
   | .deploy desired, .deploy o => ({ s with tmpl := o.tmpl, store := o.store }, deployOk isHashOf s desired o)
   | .deploy _, .stuck => (s, true)
+  | .deployF f desired, .deploy o => ({ s with tmpl := o.tmpl, store := o.store }, deployOkF isHashOf f s desired o)
+  | .deployF _ _, .stuck => (s, true)
   | .snap, .env =>
     (match s.tmpl with
      | none => s
